@@ -311,9 +311,12 @@ def opPartial (L : Loaded) (a b : Nat) (steps : String) (wsS : List String) : St
     -- the one-sided protocols are the functions the theorems `reveal_after` / `reveal_before` speak about
     let okA := before.length != 0 || (let ra := revealAfterAll T R mc ac; ra.2.2 == sum && ra.1 == left)
     let okB := after.length != 0 || (let rb := revealBeforeAll T R bc mc; rb.2.2 == sum && rb.1 == left)
+    -- the two-sided protocol function of theorem `reveal_both`
+    let stepsB : List Bool := steps.toList.filterMap fun ch => if ch == 'B' then some true else if ch == 'A' then some false else none
+    let okT := (let rt := revealBoth T R bc mc ac stepsB; rt.2.2 == sum && rt.1 == left)
     tag ++ ": " ++ ratStr full ++ " " ++ ratStr bs ++ " " ++ ratStr ms ++ " " ++ ratStr as_ ++ " " ++ ratStr sum ++ " ; " ++
       chartStr L { left := left, right := right } ++ " ; " ++ " | ".intercalate recs ++
-      (if okA && okB then "" else " | MODEL-TRACE-MISMATCH")
+      (if okA && okB && okT then "" else " | MODEL-TRACE-MISMATCH")
   let specAll := specSeq L.arpa [] ws
   let parts := specSeq L.arpa [] before + specSeq L.arpa [] between + specSeq L.arpa [] after
   let ts := termsSeq L.arpa [] ws ++ termsSeq L.arpa [] before ++ termsSeq L.arpa [] between ++ termsSeq L.arpa [] after
